@@ -92,6 +92,7 @@ def stepSt (s : DSt) : List String → DSt × String
   | ["svcheck", _] => (s, "ok")
   | ["al", k, n] => alOp s k n
   | ["alh", k, n] => alOp s k n
+  | ["alnh", k, n] => alOp s k n
   | ["de", k] => match k.toNat? with
     | some k => (slotDel s k, "ok")
     | none => (s, "bad-op")
